@@ -169,6 +169,11 @@ def check_file(text, a):
             out.append("second-side-lists-present-in-one-sided-instance")
     else:
         for groups in lists:
+            ids = flat(groups)
+            if len(set(ids)) != len(ids):
+                out.append("second-side-duplicate-entry")
+            if any(not (1 <= x <= n1) for x in ids):
+                out.append("second-side-id-out-of-range")
             e = check_ties(groups, a["t2"])
             if e:
                 out.append("second-side-" + e)
